@@ -3,6 +3,8 @@
   Python harness. One S-expression per input line, one per output line.
 -/
 import Yld.Model.Api
+import Yld.Model.Parser
+import Yld.Model.Emit
 namespace Yld
 open Sexp
 
@@ -110,6 +112,13 @@ def unifySeq (fuel : Nat) (pairs : List (Term × Term)) (watch : List Term) (sch
     | t => sexpOfTerm t
   .list ([.sym "u", .list outs, sexpOfSig r, .sym (toString w1.boundCount)] ++ (if w1.cyc then [.sym "cyclic"] else []))
 
+def sexpOfFrontErr (e : FrontErr) : Sexp := .list [.sym "error", .sym (reprStr e)]
+
+def compileClauses (cs : List SClause) : Sexp :=
+  let prog := compileProgram (groupClauses cs)
+  if tooLarge prog then sexpOfFrontErr .tooLarge
+  else .list (.sym "ok" :: prog.map sexpOfPStmt)
+
 def handle : Sexp → Sexp
   | .list (.sym "scenario" :: mode :: fuel :: ops) =>
       match modeOfSexp mode, natOfSexp fuel with
@@ -121,6 +130,25 @@ def handle : Sexp → Sexp
                 | _ => none), watch.mapM termOfSexp, schedOfSexp sched with
       | some f, some ps, some ws, some sc => unifySeq f ps ws sc
       | _, _, _, _ => .sym "bad-op"
+  | .list (.sym "compile" :: cs) =>
+      match cs.mapM sclauseOfSexp with
+      | some cs => compileClauses cs
+      | none => .sym "bad-op"
+  | .list [.sym "front", .str text] =>
+      match frontend text with
+      | .ok (cs, na) => .list (.sym "ok" :: .sym (if na then "nonascii" else "ascii") :: cs.map sexpOfSClause)
+      | .error e => sexpOfFrontErr e
+  | .list [.sym "compiletext", .str text] =>
+      match frontend text with
+      | .ok (cs, na) =>
+          match compileClauses cs with
+          | .list (.sym "ok" :: rest) => .list (.sym "ok" :: .sym (if na then "nonascii" else "ascii") :: rest)
+          | e => e
+      | .error e => sexpOfFrontErr e
+  | .list [.sym "lex", .str text] =>
+      match lex text with
+      | some toks => .list (.sym "ok" :: toks.map fun t => .str t.text)
+      | none => .list [.sym "error"]
   | .list [.sym "echo", x] => x
   | _ => .sym "bad-op"
 
